@@ -547,25 +547,25 @@ var StuckHandler = func(res *Result) {}
 
 // Report is what a worker process writes for the launcher to merge.
 type Report struct {
-	Property    string           `json:"property"`
-	Worker      int              `json:"worker"`
-	Runs        int              `json:"runs"`
-	Nontrivial  int              `json:"nontrivial_runs"`
-	Sigs        []string         `json:"sigs"`
-	Probes      map[string]int   `json:"probes"`
-	Faults      map[string]int   `json:"faults"`
-	Decisions   int64            `json:"decisions"`
-	Switches    int64            `json:"switches"`
-	SimSeconds  float64          `json:"sim_seconds"`
-	WallSeconds float64          `json:"wall_seconds"`
-	Samples     []interface{}    `json:"samples"`
-	Violations  []ViolationEntry `json:"violations"`
-	Troubles    []string         `json:"troubles"`
-	Stuck       []string         `json:"stuck"`
-	NextIndex   int              `json:"next_index"`
-	FirstSeed   uint64           `json:"first_seed"`
-	LastSeed    uint64           `json:"last_seed"`
-	Aborted     string           `json:"aborted,omitempty"`
+	Property    string            `json:"property"`
+	Worker      int               `json:"worker"`
+	Runs        int               `json:"runs"`
+	Nontrivial  int               `json:"nontrivial_runs"`
+	Sigs        []string          `json:"sigs"`
+	Probes      map[string]int    `json:"probes"`
+	Faults      map[string]int    `json:"faults"`
+	Decisions   int64             `json:"decisions"`
+	Switches    int64             `json:"switches"`
+	SimSeconds  float64           `json:"sim_seconds"`
+	WallSeconds float64           `json:"wall_seconds"`
+	Samples     []interface{}     `json:"samples"`
+	Violations  []ViolationEntry  `json:"violations"`
+	Troubles    []string          `json:"troubles"`
+	Stuck       []string          `json:"stuck"`
+	NextIndex   int               `json:"next_index"`
+	FirstSeed   uint64            `json:"first_seed"`
+	LastSeed    uint64            `json:"last_seed"`
+	Aborted     string            `json:"aborted,omitempty"`
 	Findings    map[string]string `json:"findings,omitempty"`
 	FindingsN   map[string]int    `json:"findings_count,omitempty"`
 }
